@@ -14,12 +14,12 @@ def _c16_pm(form, pats, tier="quick", maxname=None):
 
 PROPS["C16"] = {
     "bounds": ("pickle: one line = name of 1..2 (thorough 1..3) printable ASCII bytes, value token = 1..2 free digits or one of 11 concrete spellings (valid and invalid, incl. NaN, Inf, hex, out of range), timestamp token = 1..3 free printable bytes, "
-               "or the prefix 429496 + 1..4 free digits (around 2^32), or the prefix 15000000 + 1..3 free bytes; followed by one fixed good line; ParseDataPoint alone on 1..4 fields of 1..2 bytes; "
+               "or the prefix 429496 + 1..4 free digits (around 2^32), or the prefix 15000000 + 1..3 free bytes; followed by one fixed good line; names of 70..5000 bytes (6 lengths, beyond every plausible initial buffer size); ParseDataPoint alone on 1..4 fields of 1..2 bytes; "
                "record (parseMetric): first token of 1..3 free printable bytes (thorough 1..4) where every ';' starts a tag, or a 1..2 byte name with 0..2 tags of three free bytes each, value one free digit, timestamp 1..2 free bytes (1 with structured tags), "
                "free organisation id 0..2^31, schema lists of 1..3 rules over concrete patterns (anchored with ^ and $, unanchored, matching tag text) closed by '.*', first retentions 10s/20s/30s/60s; "
                "schema file: 2..3 sections (thorough 4), each with priority absent or 1..2 free digits, old ('60:1440') and new ('10s:1d', '5m:1y', '1h:7d') retention syntax"),
     "outside": ("what og-rek emits for the structure and whether Python's unpickler decodes it (the encoder is an opaque deterministic function of the structure in the engine; natively both sides of the comparison run the real encoder); "
-                "msgp / snappy / Kafka wire encodings; value spellings under parseMetric beyond one digit (the ParseFloat call is the same as in ParseDataPoint); names longer than the bound, non-ASCII bytes; "
+                "the msgp encoding itself (the expected message is the same MarshalMsg applied to the record the harness derives from the line), snappy and the Kafka wire protocol (the producer is an engine model that records message values at SendMessages time; batches of 2..3 lines over 4 concrete names in 4 orders, 0..1 failed sends); value spellings under parseMetric beyond one digit (the ParseFloat call is the same as in ParseDataPoint); names longer than the bound, non-ASCII bytes; "
                 "priorities of more than 2 digits or negative; MetricData.Validate is real code (not a stub), including its dot normalisation of the name (EatDots), which the oracle applies too"),
     "assumptions": ["(*og-rek.Encoder).Encode: payload bytes = uninterpreted functions of (shape, leaf values) with og-rek's kind collapsing (all ints -> int64, strings/[]byte -> bytes, Tuple vs list); expected payload = the same encoder applied by the harness to [(name, (uint32 ts, float64 val))]",
                     "strconv.ParseFloat: native on concrete tokens, exact on free digit strings",
@@ -33,6 +33,7 @@ PROPS["C16"] = {
             spec("C16/pickle/ts-around-2^32", "VerifC16Pickle", {"tsprefix": "429496", "tsdigits": "1", "maxts": "4", "maxname": "1"}),
             spec("C16/pickle/ts-long", "VerifC16Pickle", {"tsprefix": "15000000", "maxts": "3", "maxname": "1"}),
             spec("C16/pickle/parse-datapoint", "VerifC16ParseDataPoint"),
+        ] + [spec("C16/pickle/long-name=%d" % k, "VerifC16Pickle", {"maxname": "1", "longname": str(k), "maxts": "1", "tsprefix": "150000000"}) for k in (70, 150, 300, 600, 1200, 5000)] + [
         ]},
         {"pkg": "route", "hdir": "route", "specs": [
             _c16_pm("free", []),
@@ -48,6 +49,8 @@ PROPS["C16"] = {
             _c16_pm("2", ["^a$", "=b$"]),
             _c16_pm("2", [";k=", "^a"], tier="thorough"),
         ]},
+        # the Kafka route's real run loop against the engine's producer model (engine only)
+        {"pkg": "route", "hdir": "route", "no_native": True, "specs": [spec("C16/kafka/batch", "VerifC16Kafka")]},
         {"pkg": "persister", "hdir": "persister", "specs": [
             spec("C16/schemas-order/sections=2", "VerifC16SchemaOrder", {"sections": "2"}),
             spec("C16/schemas-order/sections=3", "VerifC16SchemaOrder", {"sections": "3"}),
